@@ -47,6 +47,13 @@ Theorem C09_stored_bytes_equal_is_elem_eqb :
 Proof. exact stored_bytes_equal_elem_eqb. Qed.
 Print Assumptions C09_stored_bytes_equal_is_elem_eqb.
 
+(* ... and conversely: what the store model treats as equal (elem_eqb) is stored as the same bytes; together: LREM by value
+   removes exactly the elements the model's remove_first removes *)
+Theorem C09_elem_eqb_iff_stored_bytes :
+  forall a b, wf_pelem a = true -> wf_pelem b = true -> (enc_elem a = enc_elem b <-> elem_eqb a b = true).
+Proof. intros a b Ha Hb. split; [now apply stored_bytes_equal_elem_eqb|apply elem_eqb_same_bytes]. Qed.
+Print Assumptions C09_elem_eqb_iff_stored_bytes.
+
 Theorem C09_decoders_total :
   forall b, safe (dec_msg b) /\ safe (dec_elem b) /\ safe (dec_sub b).
 Proof. intros b. split; [apply dec_msg_safe|split; [apply dec_elem_safe|apply dec_sub_safe]]. Qed.
